@@ -436,3 +436,101 @@ impl Property for C06 {
         out
     }
 }
+
+fn fuzz_world() -> World {
+    use crate::hist::{Cfg, DiffMode, Op, ParentSel, TxSpec};
+    let cfg = Cfg {
+        net: crate::chain::Net::Regtest,
+        threshold: 2,
+        pool: vec![crate::chain::ScriptSpec::P2pkh(0), crate::chain::ScriptSpec::P2wpkh(1)],
+        diff_mode: DiffMode::One,
+        validated: false,
+    };
+    let mut w = World::new(&cfg);
+    let ext = |parent: ParentSel, txs: Vec<TxSpec>| Op::Extend { parent, coinbase: vec![(0, 3), (1, 2), (0, 1)], txs, diff: 0, dt: 10, reuse: None };
+    let tx = TxSpec { inputs: vec![1000, 40000], outs: vec![(0, 5), (1, 5), (0, 0)], fee_permille: 10, witness: None };
+    let ops = vec![
+        ext(ParentSel::BestTip, vec![]),
+        ext(ParentSel::BestTip, vec![tx.clone()]),
+        ext(ParentSel::BestTip, vec![]),
+        ext(ParentSel::BestTip, vec![tx.clone()]),
+        ext(ParentSel::Any(crate::hist::sel_for(1, 3)), vec![tx.clone()]),
+        ext(ParentSel::BestTip, vec![]),
+    ];
+    for (i, op) in ops.iter().enumerate() {
+        let info = w.apply(i, op);
+        assert!(info.errors.is_empty(), "fuzz setup failed: {:?}", info.errors);
+    }
+    w
+}
+
+thread_local! {
+    static FUZZ_WORLD: std::cell::RefCell<Option<World>> = const { std::cell::RefCell::new(None) };
+}
+
+/// Raw entry point for the byte-level fuzz target: a fixed forked state with stable and unstable
+/// funds (built once per thread: page requests do not change it); byte 0 selects address and
+/// page size, the rest is the page blob.
+pub fn fuzz_blob(data: &[u8]) -> Outcome {
+    let mut out = Outcome::default();
+    if data.is_empty() {
+        return out;
+    }
+    FUZZ_WORLD.with(|cell| {
+        let mut guard = cell.borrow_mut();
+        if guard.is_none() {
+            *guard = Some(fuzz_world());
+        }
+        let w = guard.as_mut().unwrap();
+        let addrs = w.distinct_addresses();
+        let addr = addrs[(data[0] & 1) as usize % addrs.len()].clone();
+        let limit = match (data[0] >> 1) % 4 {
+            0 => None,
+            k => Some(k as usize),
+        };
+        let walk = Walk {
+            addr,
+            limit,
+            tip_hash: vec![],
+            tip_height: 0,
+            tip_id: None,
+            expected: vec![],
+            got: vec![],
+            next: None,
+            pages: 0,
+            interleaved_ops: 0,
+            finished: false,
+            ended_by_error: false,
+        };
+        check_blob(w, &walk, &data[1..], &mut out, "fuzz");
+    });
+    out
+}
+
+/// Valid page tokens of the fixed fuzz state (used to seed the corpus).
+pub fn fuzz_blob_seeds() -> Vec<Vec<u8>> {
+    let mut seeds = vec![];
+    let w = fuzz_world();
+    for (ai, addr) in w.distinct_addresses().iter().enumerate() {
+        for l in 1..4usize {
+            let mut f = Filter::None;
+            for _ in 0..6 {
+                match crate::sut::get_utxos_limit(addr, &f, l) {
+                    Ok(Ok(ans)) => match ans.next_page {
+                        Some(tok) => {
+                            let mut d = vec![(ai as u8 & 1) | ((l as u8) << 1)];
+                            d.extend(tok.iter());
+                            seeds.push(d);
+                            f = Filter::Page(tok);
+                        }
+                        None => break,
+                    },
+                    _ => break,
+                }
+            }
+        }
+    }
+    seeds.sort();
+    seeds.dedup();
+    seeds
+}
